@@ -53,10 +53,10 @@ int ogg_page_serialno(const ogg_page *og){ return (int)g_ser[g_tl]; }
 int ogg_page_bos(const ogg_page *og){ return 0; }
 int ogg_page_eos(const ogg_page *og){ return g_eos; }
 #include "vorbisfile.c"
-static ogg_int64_t g_pagepos; static int g_seekfail;
+static ogg_int64_t g_pagepos; static int g_seekfail; static int g_nopage;
 static int _seek_helper(OggVorbis_File *vf,ogg_int64_t off){ if(g_seekfail) return OV_EREAD; vf->offset=off; return 0; }
 static ogg_int64_t _get_next_page(OggVorbis_File *vf,ogg_page *og,ogg_int64_t boundary){
-  if(g_pages>=1) return OV_EOF; g_pages++;
+  if(g_pages>=1 || g_nopage) return OV_EOF; g_pages++;
   og->header=env_hdr; og->header_len=27; og->body=env_body; og->body_len=0; vf->offset=g_pagepos+100; return g_pagepos; }
 void harness(void){
   OggVorbis_File vf; memset(&vf,0,sizeof vf); g_vf=&vf; int ds=1; vf.datasource=&ds; vf.callbacks=env_cb; vf.seekable=ND_BOOL(); vf.links=2;
@@ -67,6 +67,7 @@ void harness(void){
   g_tl=ND_irange(0,1); g_eos=ND_irange(0,1); g_n=ND_irange(1,NPK); g_gp=ND_range(0,1L<<31); g_seekfail=ND_BOOL();
   for(int k=0;k<NPK;k++){ long b=ND_long(); ASSUME(b==-1||b==64||b==256||b==2048); g_bsz[k]=b; } ASSUME(g_bsz[g_n-1]>0);   /* the packet carrying the granule position is audio */
   for(int k=1;k<NPK;k++) ASSUME(!(g_bsz[k]<0 && g_bsz[k-1]>0));   /* well-formed link: non-audio (header) packets only precede the audio packets */
+  g_nopage=ND_BOOL();       /* no page begins at or after the target (seek into / behind the file's last page) */
   int first=ND_BOOL(); g_pagepos= first? doffs[g_tl] : doffs[g_tl]+ND_range(1,5000);
   vf.ready_state=ND_irange(0,INITSET); ASSUME(vf.ready_state!=1); vf.current_link=ND_irange(0,1); vf.current_serialno=sers[vf.current_link];
   if(vf.ready_state==INITSET){ env_dsp_live=1; env_blk_live=1; }
@@ -77,6 +78,7 @@ void harness(void){
   if(!vf.seekable){ CHECK(r==OV_ENOSEEK && vf.ready_state==rs0,"unseekable: refused, decode machine untouched"); WITNESS_AT("not seekable"); return; }
   if(pos<0||pos>vf.end){ CHECK(r==OV_EINVAL && vf.ready_state==rs0 && vf.pcm_offset==0,"out-of-range target refused without touching the handle"); WITNESS_AT("out of range"); return; }
   if(g_seekfail){ CHECK(r==OV_EBADLINK && vf.pcm_offset==-1 && vf.ready_state==OPENED && env_dsp_live==0,"failed seek: machine dumped, position unknown"); WITNESS_AT("seek failed"); return; }
+  if(g_nopage){ CHECK(r==0 && vf.pcm_offset==pcml[1]+pcml[3],"no page after the target: position = total length of the WHOLE physical stream"); CHECK(g_work_live==0,"scan state released"); WITNESS_AT("end of file"); return; }
   ASSUME(pos>=offs[g_tl] && pos<=g_pagepos && g_pagepos<offs[g_tl+1]);      /* consistency of the abstract file with the request */
   CHECK(r==0,"in-range raw seek succeeds");
   CHECK(g_work_live==0,"local scan stream state released on every exit");
